@@ -10,6 +10,7 @@ mod canon;
 mod net;
 mod reader;
 mod valve;
+mod minecraft;
 
 use std::io::{BufRead, Write};
 use std::panic::{catch_unwind, AssertUnwindSafe};
@@ -23,6 +24,7 @@ fn entries() -> Vec<(&'static str, EntryFn)> {
     let mut v: Vec<(&'static str, EntryFn)> = Vec::new();
     v.extend(reader::entries());
     v.extend(valve::entries());
+    v.extend(minecraft::entries());
     v
 }
 
